@@ -102,6 +102,12 @@ def call_probes():
     out.append(("call:in_loop", HDR + "def f(a):\n    db.Mode = a\n    return a + 1\n\nx = d0.Setting\nfor i in range(3):\n    x = f(x + i)\ndb.Setting = x\n"))
     out.append(("call:values_live_across", HDR + "def f(a):\n    t = a * 3\n    u = t + a\n    return u - 1\n\np = d0.Setting\nq = d1.Setting\nr = f(p)\ns2 = f(q)\ndb.Setting = p + q + r + s2\ndb.Mode = p - q\n"))
     out.append(("call:multiline_args", HDR + "def f(a, b, c):\n    return a * 100 + b * 10 + c\n\ndef g(n):\n    v = d0.Setting\n    v = v + n\n    w = f(\n        v,\n        d1.Setting * 2,\n        d2.Setting + v,\n    )\n    db.Setting = w\n\ng(d3.Setting)\ng(2)\n"))
+    # callees inlined into a function that is itself called (return register vs the caller's temporaries)
+    out.append(("call:inl_in_func_expr", HDR + "def inner(a):\n    b = a * 2\n    c = b + a\n    return c - 1\n\ndef outer(x, y):\n    db.Setting = (x - y) * inner(x + y) + (x + 1) * (y + 2)\n\nouter(d0.Setting, d1.Setting)\nouter(1, 2)\n"))
+    out.append(("call:inl_in_func_branches", HDR + "def inner2(q):\n    return q - 1\n\ndef inner(a):\n    if a > 3:\n        return a * 2\n    return a + 7\n\ndef outer(x, y):\n    u = x * 3\n    v = inner(y)\n    w = u + v\n    db.Setting = w * inner2(u)\n\nouter(d0.Setting, d1.Setting)\nouter(1, 2)\n"))
+    out.append(("call:inl_chain", HDR + "def c3(a):\n    return a * a + 1\n\ndef c2(a):\n    t = a + 2\n    return c3(t) - a\n\ndef c1(a, b):\n    u = a * b\n    return c2(u) + a * 10 + b\n\ndef outer(x, y):\n    db.Setting = c1(x, y) + x * y\n\nouter(d0.Setting, d1.Setting)\nouter(1, 2)\n"))
+    out.append(("call:inl_in_while_cond", HDR + "def inner(a):\n    t = a * 2\n    return t + 1\n\ndef outer(x, y):\n    k = 0\n    while inner(k) < x + y:\n        k = k + 1\n        if k > 3:\n            break\n    db.Setting = k\n\nouter(d0.Setting, d1.Setting)\nouter(1, 2)\n"))
+    out.append(("call:two_inl_one_stmt", HDR + "def f1(a):\n    b = a * 2\n    return b + 1\n\ndef f2(a):\n    c = a * 3\n    return c + 2\n\ndef outer(x, y):\n    db.Setting = f1(x) * f2(y) + x\n\nouter(d0.Setting, d1.Setting)\nouter(1, 2)\n"))
     out.append(("stmt:multiline_expr", HDR + "def g(n):\n    v = d0.Setting\n    v = v + n\n    x = (v +\n         d1.Setting * 2)\n    y = (x if v > 1\n         else d2.Setting * 3)\n    db.Setting = x\n    db.Mode = y\n\ng(d3.Setting)\ng(1)\n"))
     out.append(("stmt:multiline_last_use", HDR + "def g(n):\n    v = d0.Setting\n    v = v + n\n    x = (v +\n         d1.Setting * 2)\n    db.Setting = x\n\ng(d3.Setting)\ng(1)\n"))
     out.append(("stmt:multiline_last_use_args", HDR + "def f(a, b, c):\n    return a * 100 + b * 10 + c\n\ndef g(n):\n    v = d0.Setting\n    v = v + n\n    w = f(\n        v,\n        d1.Setting * 2,\n        d2.Setting + 1,\n    )\n    db.Setting = w\n\ng(d3.Setting)\ng(2)\n"))
@@ -206,5 +212,22 @@ def lifetime_probes():
     return out
 
 
+def constness_probes():
+    """names that are bound by a constant exactly once but are not constants: parameters, loop
+    targets, names also bound in another branch / by an augmented assignment / in another function
+    (what the single-assignment constant propagation must not treat as a literal)"""
+    out = []
+    out.append(("const:param_clamp_two_calls", HDR + "def set_level(level):\n    if level > 100:\n        level = 100\n    db.Setting = level\n\nset_level(d0.Setting)\nset_level(d1.Setting)\n"))
+    out.append(("const:param_floor_inlined", HDR + "def out(v):\n    if v < 0:\n        v = 0\n    db.Setting = v * 2\n\nwhile True:\n    yield_()\n    out(d0.Setting)\n"))
+    out.append(("const:param_clamp_expr_ret", HDR + "def clamp(v, hi):\n    db.Mode = v + hi\n    if v > hi:\n        v = 50 * 2\n    return v - 1\n\ndb.Setting = clamp(d0.Setting, 100)\ndb.On = clamp(d1.Setting, d2.Setting)\n"))
+    out.append(("const:param_reset_after_use", HDR + "def pulse(n):\n    db.Mode = n\n    while n > 0:\n        db.On = n\n        n = 0\n    db.Setting = n\n\npulse(d0.Setting)\npulse(2)\n"))
+    out.append(("const:var_clamp_main", HDR + "x = d0.Setting\nif x > 5:\n    x = 5\ndb.Setting = x\ny = 3\nif d1.Setting > 1:\n    y = 4\ndb.Mode = y\n"))
+    out.append(("const:aug_after_const", HDR + "x = 5\nx += d0.Setting\ndb.Setting = x\nz = 2\nfor i in range(2):\n    z *= 3\ndb.Mode = z\n"))
+    out.append(("const:global_set_in_function", HDR + "mode = 1\n\ndef toggle(v):\n    global mode\n    if v > 0:\n        mode = 2\n    db.Mode = mode\n\ntoggle(d0.Setting)\ndb.Setting = mode\ntoggle(d1.Setting)\ndb.On = mode\n"))
+    out.append(("const:loop_flag", HDR + "found = 0\nfor i in range(3):\n    if Stack(d0)[i] > 4:\n        found = 1\ndb.Setting = found\n"))
+    out.append(("const:true_constant_still_folds", HDR + "k = 6\nh = k * 7\ndb.Setting = h + d0.Setting\n"))
+    return out
+
+
 def all_probes():
-    return comparison_probes() + range_probes() + boolean_probes() + arithmetic_probes() + call_probes() + access_probes() + call_matrix() + lifetime_probes()
+    return comparison_probes() + range_probes() + boolean_probes() + arithmetic_probes() + call_probes() + access_probes() + call_matrix() + lifetime_probes() + constness_probes()
